@@ -174,17 +174,23 @@ def oracle(case, out):
                 return 'iteration %d: sweep ran = %s, expected %s (tick %d, period %d)' % (i, cur['swept'], due, tick, n0)
             tick = 1 if due else tick + 1
         return None
-    # threaded: is_inactive() before every iteration
+    # threaded: is_inactive() before every iteration; the loop must end exactly at the first iteration at which the
+    # connection is idle (nothing pending, last client I/O more than timeout ago), unless handle_events ended it before
     k = 0
+    n_main, hev = out['n_main'], out['hev']
     for i, it in enumerate(case['iters']):
-        if i >= len(out['inact']):
-            break
+        if i > 0 and i - 1 < len(hev) and hev[i - 1]:
+            break                                   # ended by the handler in the previous iteration
         last, pend = state_at(k)
         want = pend == 0 and it['t'] - last > D
-        if out['inact'][i] != want:
-            return 'threaded loop iteration %d at %d: is_inactive() = %s, expected %s (pending %d, last client I/O %d)' % (
-                i, it['t'] - t0, out['inact'][i], want, pend, last - t0)
-        if out['inact'][i]:
+        executed = i < n_main                       # select() was reached in iteration i
+        if want and executed:
+            return 'threaded loop iteration %d at %d went on although the connection is idle (last client I/O %d, timeout %d ticks)' % (
+                i, it['t'] - t0, last - t0, D)
+        if not want and not executed:
+            return 'threaded loop ended at iteration %d (time %d) although the connection is not idle (pending %d, last client I/O %d)' % (
+                i, it['t'] - t0, pend, last - t0)
+        if want:
             if not out['fin']['cclosed']:
                 return 'inactive connection not closed'
             break
